@@ -455,7 +455,7 @@ func fixedSets() []setDesc {
 	}
 	// DESIGN §5 entry 28: a query on the extension of edge P2-P3; a second, nearer-looking cell
 	triV := pts([3]float64{0, 0, 0}, [3]float64{2, 0, 0}, [3]float64{0, 2, 0},
-		[3]float64{6, -4, 0}, [3]float64{7, -4, 0}, [3]float64{6, -5, 0},
+		[3]float64{4, -2, 0}, [3]float64{5, -2, 0}, [3]float64{4, -3, 0},
 		[3]float64{-6, 6, 0}, [3]float64{-7, 6, 0}, [3]float64{-6, 7, 0})
 	for _, depth := range []int{0, 1, 2, -1} {
 		out = append(out, setDesc{Kind: "tri", Verts: triV, Idx: []int{0, 1, 2, 3, 4, 5, 6, 7, 8}, Depth: depth,
